@@ -432,6 +432,24 @@ def part_services_fault(ctx):
                         (r["k"], r["of"], r["call"], what), dict(kind="service-fault", result=r))
     return p
 
+
+def part_c05_seek_revival(ctx):
+    """the witness of C05_seek_revival_refuted replayed on the implementation (known finding F19)"""
+    p = Part("seek-revival")
+    d = os.path.join(ctx["work"], "c05seek")
+    rc, out = harness(["c05-seek-revival", "-out", d], timeout=600)
+    if rc != 0:
+        p.violation("harness-failed", "the seek-revival replay failed: " + out[-1500:], dict(log=out[-3000:]), found_input=False)
+        return p
+    info = json.load(open(os.path.join(d, "c05seek.json")))
+    p.evaluations = 1
+    p.traces = 1
+    p.nontrivial = 1
+    p.samples = [info["events"]]
+    for v in info.get("violations") or []:
+        p.violation(v.split(":")[0], v, dict(kind="c05-seek-revival", events=info["events"], model_witness="Bus/T_C05.v Module SeekRevival, theorem C05_seek_revival_refuted"))
+    return p
+
 def part_c16(ctx):
     p = Part("boundary-requests")
     d = os.path.join(ctx["work"], "c16")
@@ -1001,11 +1019,12 @@ CHECKS = {
         assumptions=BUS_ASSUME),
     "C05": dict(
         props=["C05", "Tie"],
-        parts=[engine_part("delivery", 32, 600, 45, claim_c05, ["pull_keyed", "publish_batch"]), part_ordered_publish_faults],
+        parts=[engine_part("delivery", 32, 600, 45, claim_c05, ["pull_keyed", "publish_batch"]), part_ordered_publish_faults, part_c05_seek_revival],
         rule="[+ a Publish of three same-key messages to an ordered subscription behind an outstanding same-key message, with each of its statements failing in turn: the publish fails as a whole or the chain is as the model says; written times of a batch must increase strictly (hypothesis quiet of the theorem)] engine profile delivery: 40% ordered subscriptions, keys k1 k1 k2 k3 and un-keyed messages, single and batched publishes, pulls of size 1..100, acks in any order, nacks, "
              "lease and retention expiry, dead-lettering, seeks, prunes; owned projection: predecessor links written by Publish, Pull selection/response, link nulling by the delivery prunes; "
              "non-trivial = keyed messages pulled, batches",
-        assumptions=BUS_ASSUME + ["history theorem under the environment hypotheses of Bus/T_C05.v (quiet, disciplined H1-H6)"]),
+        assumptions=BUS_ASSUME + ["history theorem under the environment hypotheses of Bus/T_C05.v (quiet, disciplined H1-H6)",
+                                  "H3 (no seek on the subscription) is NECESSARY: with a seek the property fails on the model (C05_seek_revival_refuted) and on the code (part seek-revival: known finding seek-revival-overtake)"]),
     "C09": dict(
         props=["C09", "Tie"],
         parts=[part_fault_enum, part_services_fault],
